@@ -6,6 +6,7 @@ import (
 	"os"
 	"regexp"
 	"sort"
+	"strings"
 
 	"github.com/semihalev/twig"
 	"simrt"
@@ -17,6 +18,7 @@ func init() {
 		n := fs.Int("n", 2000, "")
 		errPct := fs.Int("errors", 0, "")
 		show := fs.Int("show", 25, "")
+		grep := fs.String("grep", "", "print every template of the first program whose error contains this")
 		fs.Parse(args)
 		num := regexp.MustCompile(`[0-9]+`)
 		counts := map[string]int{}
@@ -47,6 +49,13 @@ func init() {
 				}
 				if len(msg) > 160 {
 					msg = msg[:160]
+				}
+				if *grep != "" && strings.Contains(msg, *grep) {
+					for n, src := range p.Sources() {
+						fmt.Printf("--- %s\n%s\n", n, src)
+					}
+					fmt.Println("error:", msg)
+					os.Exit(0)
 				}
 				k := num.ReplaceAllString(msg, "N")
 				counts[k]++
